@@ -24,6 +24,18 @@ def handle_of(p):
     return _NEXT[0]
 
 
+OMP_NVT = None     # when set (C10 part B), every interpreter created through the bridge / ccall runs clang's -fopenmp IR in footprint mode
+
+
+def new_interp(cfile, hybrid=False):
+    m = module(cfile, openmp=OMP_NVT is not None)
+    it = Interp(m, hybrid=hybrid)
+    if OMP_NVT is not None:
+        from . import omp
+        omp.attach(it, OMP_NVT)
+    return it
+
+
 def module(cfile, openmp=False):
     key = (cfile, openmp)
     if key not in _MODULES:
@@ -89,8 +101,7 @@ def install(ctx, libname, cfile, fnames, hybrid=True, stats=None, setup=None):
 
     def make(fn):
         def handler(*args):
-            m = module(cfile)
-            it = Interp(m, hybrid=hybrid)
+            it = new_interp(cfile, hybrid=hybrid)
             if setup is not None:
                 setup(it)
             r = it.call(fn, [to_arg(it, a, "%s.arg%d" % (fn, k)) for k, a in enumerate(args)])
